@@ -7,13 +7,13 @@ props = [json.loads(l) for l in open(os.path.join(V, 'properties.jsonl'))]
 CHECKS = {
  'C05': dict(
    category='model_checking', design_ref='DESIGN.md §5.5, §10',
-   technique='TLA+ spec (specs/Auth) model-checked with TLC; TLC behaviours replayed into a real SSHServerConnection with state comparison; property monitors on observations',
-   text='TLC exhausts the Auth specification (every sequence of <=3-4 auth messages over 2 users x methods x credential/signature classes, every chunking, every interleaving with executor and validator completions) against AuthSound/GateUntilAuth/GrantStable; sampled behaviours of the same spec are replayed step by step into the real server with the implementation state projected onto the spec variables after every step, so the exhaustive result transfers to the code on the replayed behaviours. Right level because the property quantifies over schedules and histories.',
+   technique='TLA+ specs (specs/Auth/Auth.tla, Restrict.tla) model-checked with TLC; TLC behaviours replayed into a real SSHServerConnection with state comparison; credential-restriction decision table replayed row by row against a real server with real keys/certificates; property monitors on observations',
+   text='TLC exhausts the Auth specification (every sequence of <=3-4 auth messages over 2 users x methods x credential/signature classes, every chunking, every interleaving with executor and validator completions) against AuthSound/GateUntilAuth/GrantStable; sampled behaviours of the same spec are replayed step by step into the real server with the implementation state projected onto the spec variables after every step, so the exhaustive result transfers to the code on the replayed behaviours. The clause on credential restrictions has its own decision-table spec (Restrict.tla: credential kind x authorized_keys options x certificate extensions/critical options -> allowed operations and forced command; 13 invariants, 4 wrong-rule variants rejected), every row of which is executed against a real server. Right level because the property quantifies over schedules and histories.',
    note='Trusted: TLC, the harness event loop (real asyncio scheduling code with virtual selector), truthful application validators, raw peer built on asyncssh transport for its own side only. Bounded: 2 users, <=4 messages.'),
  'C07': dict(
    category='model_checking', design_ref='DESIGN.md §5.7',
-   technique='TLA+ spec (specs/Channel) model-checked with TLC; TLC behaviours replayed packet-by-packet into a real client/server pair with state comparison; monitors on bytes received by the real sessions',
-   text='TLC exhausts the Channel specification (writes on two data types, EOF, pause/resume, window adjusts, network deliveries, one and two channels, windows 1-4, packets 1-3) against DeliveredIsPrefix/Isolation/EOFLast; hundreds of sampled behaviours of the same spec are replayed into real SSHChannel objects with manual packet delivery and compared state by state; a harness sweep covers multi-byte characters split at every packet boundary.',
+   technique='TLA+ specs (specs/Channel/Channel.tla, Text.tla) model-checked with TLC; TLC behaviours replayed packet-by-packet into a real client/server pair with state comparison; every TLC-enumerated packet script of the text model sent by a raw peer to real text-mode sessions; monitors on bytes/characters received by the real sessions',
+   text='TLC exhausts the Channel specification (writes on two data types, EOF, pause/resume, window adjusts, network deliveries, one and two channels, windows 1-4, packets 1-3) against DeliveredIsPrefix/Isolation/EOFLast; hundreds of sampled behaviours of the same spec are replayed into real SSHChannel objects with manual packet delivery and compared state by state; a harness sweep covers multi-byte characters split at every packet boundary; Text.tla models characters of 1-4 bytes on two data types cut anywhere by FIFO (asyncssh) and free (any SSH peer) senders into per-type or shared decoders: TLC shows a shared decoder is only safe against a FIFO sender, every complete packet script is replayed into real receivers in both roles and real senders must emit one of the FIFO scripts.',
    note='Trusted: TLC, virtual loop, hooks pkt_out/pkt_in for packet boundaries. Bounded windows/units; x1 and x1024 byte scaling. Writer=server channel, reader=client channel (same class).'),
  'C08': dict(
    category='model_checking', design_ref='DESIGN.md §5.8',
@@ -22,12 +22,12 @@ CHECKS = {
    note='Trusted: TLC, virtual loop, raw peer built on asyncssh transport for its own side only. Liveness on the code is checked as drain-completeness, not as a temporal property.'),
  'C09': dict(
    category='model_checking', design_ref='DESIGN.md §5.9',
-   technique='TLA+ spec (specs/Lifecycle) model-checked with TLC incl. liveness; behaviours replayed into a real pair with state comparison; crash-point enumeration of a scripted session at every packet boundary',
+   technique='TLA+ spec (specs/Lifecycle) model-checked with TLC incl. liveness; behaviours and state/transition-covering BFS scripts replayed into a real pair with state comparison; crash-point enumeration of two scripted sessions (requests/SFTP/streams; flow-controlled writers after EOF) at every packet boundary',
    text='TLC exhausts the Lifecycle specification (open/confirm/failure, request, EOF, CLOSE handshake, close/abort, connection close/abort, transport cut at any moment, coalesced packets, deferred clean-up callbacks; 1-2 channels) against AllWaitersResolved/CloseOnceAndLast/LegalOrder/NoChannelLeft and the liveness property Terminates; sampled behaviours are replayed into the real code with callback logs, waiter states and channel states compared step by step; a scripted client program with stream, drain, SFTP and wait_closed waiters is re-run with 7 fault kinds at every packet boundary and must leave no pending task when the loop goes idle.',
-   note='Trusted: TLC, virtual loop (idle detection = hung-waiter oracle), hooks for packet boundaries. Both peers are asyncssh. Bounded: <=2 channels, <=6 operations, one scripted crash-point scenario.'),
+   note='Trusted: TLC, virtual loop (idle detection = hung-waiter oracle), hooks for packet boundaries. Both peers are asyncssh. Bounded: <=2 channels, <=8 operations, two scripted crash-point scenarios.'),
  'C02': dict(
    category='model_checking', design_ref='DESIGN.md §5.2',
-   technique='TLA+ spec of the receive machine (specs/RecvMachine) model-checked with TLC; TLC-chosen chunkings applied to live sessions; every emitted byte decoded by an independent RFC 4253 implementation (harness/wire.py)',
+   technique='TLA+ spec of the receive machine (specs/RecvMachine) model-checked with TLC; TLC-chosen chunkings, one-byte chunks and bursts of hundreds of packets coalesced into one chunk applied to live sessions; every emitted byte decoded by an independent RFC 4253 implementation (harness/wire.py)',
    text='TLC exhausts every segmentation of a packet stream (version line, asynchronous handler) through the version/header/body receive machine (InOrderOnce, NotEarly, AllDispatched, liveness; sensitivity variant rejected); TLC-chosen cut sets are mapped onto the real packet boundaries of live sessions in both directions with byte jitter; for every cipher x MAC (x compression), kex family, payload sizes around the block size and sequence numbers near 2^16/2^32 an independent decoder with its own key derivation, decryption, MAC, padding and sequence checks must accept everything both endpoints emit and see exactly the emitted payloads.',
    note='Trusted: TLC, wire.py + `cryptography` primitives, K/H from the key-log hook (kex arithmetic is C03). UMAC tags unverified (no independent UMAC). Conformance part is decided by the independent decoder, not by TLC.'),
  'C03': dict(
@@ -67,9 +67,9 @@ CHECKS = {
    note='Trusted: TLC, virtual loop with selector semantics, MITM of drivers/transport.py. Adversary granularity: whole packets + in-packet bit flips/truncation. F6 (re-parse between fatal error and deferred clean-up) is outside what this harness can produce (see DESIGN.md).'),
  'C11': dict(
    category='model_checking', design_ref='DESIGN.md §5.11',
-   technique='TLA+ model of key re-exchange on a busy connection (specs/Transport/Rekey.tla) model-checked with TLC incl. liveness; behaviours replayed packet by packet into a real pair; busy live sessions decoded by the independent decoder',
+   technique='TLA+ model of key re-exchange on a busy connection (specs/Transport/Rekey.tla) model-checked with TLC incl. liveness; behaviours replayed packet by packet into a real pair (spec->code); executions recorded from naturally scheduled sessions validated by TLC against the spec (code->spec, RekeyTrace.tla, with binding controls); busy live sessions decoded by the independent decoder',
    text='TLC exhausts application sends from both sides interleaved with every step of (repeated, possibly simultaneous) key re-exchanges against FIFOExactlyOnce/NoKeyMismatch/OnlyKexBetween/EpochsInStep and the liveness property Completes (the flush-before-NEWKEYS variant is rejected); hundreds of behaviours are replayed at packet granularity with emitted message kinds, pending packets and received data compared after every step; live sessions with byte limits from 1 upward on several cipher families with requests and channel opens in flight must echo intact, emit only kex messages between KEXINIT and NEWKEYS, keep the session id, and be decodable by an independent decoder that switches to freshly derived keys at every NEWKEYS.',
-   note='Trusted: TLC, hooks pkt_out/keylog, wire.py. Replay thresholds are 0/1 application packet; time-based re-keying shares the trigger path and is not driven by the virtual clock. Algorithm change between exchanges is not exercised.'),
+   note='Trusted: TLC, hooks pkt_out/keylog, wire.py. Replay thresholds are 0/1 application packet, recorded traces use byte limits of 1 byte to 4 packets (also half-packet offsets); time-based re-keying shares the trigger path and is not driven by the virtual clock. Algorithm change between exchanges is not exercised.'),
  'C13': dict(
    category='model_checking', design_ref='DESIGN.md §5.13',
    technique='TLA+ models of path mapping, of request sequences over a small file system with symlinks/hard links and of SCP/recursive-get downloads (specs/PathConfine) model-checked with TLC; cases and behaviours replayed against the real chroot SFTP server, SCP sink and recursive get with a system-call monitor',
@@ -97,7 +97,7 @@ CHECKS = {
    note='Trusted: TLC, OpenSSH ssh -G (advisory). One known finding: the second (canonical/final) pass restarts from scratch (known_findings.json).'),
  'C20': dict(
    category='model_checking', design_ref='DESIGN.md §5.20',
-   technique='TLA+ models of a forwarded connection, the forwarding permission table and the SOCKS parser (specs/Forward) model-checked with TLC; behaviours/rows/inputs replayed on the in-memory network against real forwarders, listeners and a real server',
+   technique='TLA+ models of a forwarded connection, of several listeners on one connection, the forwarding permission table and the SOCKS parser (specs/Forward) model-checked with TLC; behaviours/rows/inputs replayed on the in-memory network against real forwarders, listeners and a real server',
    text='TLC exhausts interleavings of data/EOF/close/reset from both ends incl. early data and late confirm/refusal and SSH cut (RelayFIFO, HalfClose, CloseBoth, Released, NoListenerLeft; four variants rejected), the 504-row permission table (request kind x key options x certificate x application answer x destination) and 4.7k SOCKS parser states; behaviours are replayed with manual packet delivery on local/remote/SOCKS4/4a/5/UNIX forwards with step-by-step comparison, every permission row runs against a real server with real key options/certificates, and every SOCKS input is fed whole, split and byte by byte.',
    note='Trusted: TLC, in-memory sockets of the virtual loop as TCP/UNIX ends (thorough adds real loopback sockets). Over-restrictive refusals are divergences, not violations.'),
  'C10': dict(
